@@ -83,7 +83,9 @@ func (p *Prog) contractsFor(prop string) []string {
 		if c.Extern || c.Trusted || strings.HasPrefix(k, "iface:") || strings.HasPrefix(k, "functype:") {
 			continue
 		}
-		if prop == "" || hasProp(c.Props, prop) || c.clauseHasProp(prop) || (c.Key == "init" && p.specs.tableHasProp(c.PkgPath, prop)) {
+		// C06 also owns the typed-nil obligations of every function of the render package
+		renderPkg := prop == "C06" && c.PkgPath == repoModule+"/soyhtml"
+		if prop == "" || renderPkg || hasProp(c.Props, prop) || c.clauseHasProp(prop) || (c.Key == "init" && p.specs.tableHasProp(c.PkgPath, prop)) {
 			keys = append(keys, k)
 		}
 	}
